@@ -79,7 +79,7 @@ Logged ==
      \/ IsQ("NFE") /\ T_RunEnd /\ pend = "error" /\ UNCHANGED <<cnt, cntLimit, pendCtrlC, owedInt>>
      \/ Is("TEXIT") /\ T_Exit /\ UNCHANGED <<cnt, cntLimit, pendCtrlC, owedInt>>
      \/ Is("STOP") /\ stopped /\ UNCHANGED vars /\ UNCHANGED <<cnt, cntLimit, pendCtrlC, owedInt>>
-     \/ Is("CTRLC") /\ cpc = "get" /\ pendCtrlC' = TRUE /\ UNCHANGED vars /\ UNCHANGED <<cnt, cntLimit, owedInt>>
+     \/ Is("CTRLC") /\ cpc \in {"get", "alive"} /\ pendCtrlC' = TRUE /\ UNCHANGED vars /\ UNCHANGED <<cnt, cntLimit, owedInt>>
      \/ (\E k \in {"SS", "ScS", "ScF", "SF", "NFE"} : IsY(k) /\ Delivered(k)) /\ UNCHANGED <<cnt, cntLimit, pendCtrlC, owedInt>>
      \/ IsY("INT") /\ \/ (owedInt /\ owedInt' = FALSE /\ UNCHANGED vars /\ UNCHANGED <<cnt, cntLimit, pendCtrlC>>)
                       \/ (~owedInt /\ Delivered("INT") /\ UNCHANGED <<cnt, cntLimit, pendCtrlC, owedInt>>)
